@@ -84,6 +84,12 @@ def dec_case(rng, i, tier):
 
 def file_case(rng, i, tier):
     """opens that fail (faults, damaged or truncated chains), seeks that fail, repeated clears"""
+    if i % 4 == 2:
+        # links opened by several beginning-of-stream pages, duplicated / sharing serial numbers / not Vorbis: the refusal paths of the open-time
+        # serial-number bookkeeping (generator of C03)
+        from . import c03 as C03
+        ops, _ = C03.gen_bos_case(rng, i)
+        return ("c07", [ops[0], "live"] + ops[1:] + ["live", "clear 0", "clear 1", "live"])
     links = V.with_mux(rng, V.gen_links(rng, rng.choice([1, 2, 3, 4]), tiny=True), p=0.2)
     ops = ["case %d" % i, "live"] + links
     style = rng.random()
